@@ -162,6 +162,29 @@ func checkC11(c *Ctx) (int, error) {
 			}
 		}
 	}
+	// streams whose FINAL block is a stored block ending exactly where the output window is full
+	for _, total := range []int{65536, 98304, 131072, 65535, 65537, 70000} {
+		for _, sl := range []int{1, 100, 30000} {
+			hx, err := storedFinalHex(rng, total, sl)
+			if err != nil {
+				return 0, err
+			}
+			st := RStream{Hex: hx}
+			b, _ := st.Build()
+			for _, after := range []string{"block", "error"} {
+				for _, sk := range []RSource{{Kind: "plain"}, {Kind: "bufio", BufSize: 4096}} {
+					src := sk
+					src.Chunks, src.FailAt, src.Released, src.After = []int{0}, -1, len(b), after
+					cs := &RCase{ID: fmt.Sprintf("C11-%d", id), Kind: "flate", Arch: c.Levels[id%len(c.Levels)],
+						Tag:  fmt.Sprintf("flate-synth-storedfinal|%d/%d|at-end|%s|%s", total, sl, after, srcTag(sk)),
+						Segs: []RSeg{{Stream: st, Src: src, Reads: readSchedules[id%len(readSchedules)], Multi: true}}}
+					id++
+					cases = append(cases, cs)
+					c.ev.nontrivial(cs.Tag)
+				}
+			}
+		}
+	}
 	c.ev.Rule = fmt.Sprintf("%d streams per kind (flate, gzip, zlib) with two Flush points; the source releases the bytes up to each sync point / the stream end in chunks {all,1,3,4096} and then would block or fails; sources {plain, bufio 4096, bufio 64}; judged at the gate and at the final result; distinct by (stream, prefix, after, chunking, source)", n)
 	c.ev.Exhaustive = true
 	for _, cs := range spread(cases) {
